@@ -99,6 +99,13 @@ class CppBlockCompile(Contract):
         targets = SSeq(SInt(W.q), lambda j: StrV(self.tgt_f(j)), "targets")
         targets.pvc_type = "list"
         blk = SObj(cls, {"_targets": targets, "_exprs": W.exprs, "_indent": 4, "_config": SObj("Config", {"common_subexpression_elimination": self.cse}, "config")}, "block")
+
+        def temporaries_must_avoid(I2, site, tmpl):
+            """a temporary `double _t<i>` must not redeclare one of the block's own targets (`double <state name>`)"""
+            ok = tmpl.avoid is targets and tmpl.avoid_prefix == "double "
+            I2.path.oblige(f"{site}.cse_temporaries_avoid_the_blocks_target_names", z3.BoolVal(ok), note="cse temporaries are not kept apart from the block's targets: a model symbol called _t0 gives `double _t0` twice (does not compile)")
+
+        P.ghost["temporaries_must_avoid"] = temporaries_must_avoid
         return Call([blk], {}, W=W, blk=blk)
 
     def post(self, I, call, outcome):
